@@ -252,3 +252,63 @@ def spec_C15(tier):
             "explanation": "ghost reading: Data[i] is stream byte Off+i; each operation must keep that mapping: Write/ReadFrom append exactly what they report, Shrink drops exactly "
                            "delta oldest bytes and adds delta to Off, ReadAt/PeekAt/ByteAt at any int64 offset return Data[x-Off] or the documented error without panicking",
             "reach": {"zzH_pbInit": ["end", "accepted"]}}
+
+
+# ---------------------------------------------------------------- Decoder (C06, C07, C18)
+
+def dcd_jobs(tier, ops, wfs, wf_modes=(0, 1)):
+    """ops: subset of dcdWriteByte/dcdWrite/dcdFlush/dcdWriteBlock; wfs: writer fault budgets; wf_modes: block well-formedness modes"""
+    P, PB, LP, NS, NL, MM = (4, 6, 4, 2, 2, 6) if tier == "quick" else (6, 8, 6, 2, 3, 8)
+    base = {"P": P, "PB": PB, "LP": LP, "NS": NS, "NL": NL, "MM": MM}
+    P2 = {"P": 2, "PB": 4, "NL": 1, "MM": 3} if tier == "quick" else {"P": 3, "PB": 5, "NL": 2, "MM": 4}
+    jobs = []
+    for op in ops:
+        for WF in wfs:
+            for ld in range(P + 1):
+                if op == "dcdWriteBlock":
+                    for wf in wf_modes:
+                        for ns in range(NS + 1):
+                            pp = dict(base, WF=WF, ld=ld, wf=wf, ns=ns)
+                            if ns == 2:
+                                # two sequences: smaller geometry (paths multiply)
+                                pp.update(P2)
+                                if ld > pp["P"]:
+                                    continue
+                            jobs.append(J("%s-wf%d-WF%d-ld%d-ns%d" % (op, wf, WF, ld, ns), "zzH_" + op, params=pp, nonterm=True, max_steps=400000, loop_cap=200))
+                else:
+                    jobs.append(J("%s-WF%d-ld%d" % (op, WF, ld), "zzH_" + op, params=dict(base, WF=WF, ld=ld), nonterm=True, max_steps=400000, loop_cap=200))
+    bounds = {"len(Data), cap(Data)": "0..%d" % P, "BufferSize": "1..%d" % PB, "WindowSize": "0..BufferSize-1", "R": "0..len(Data)", "Off": "len(Data)..2^40",
+              "Write slice": "0..%d bytes" % LP, "block": "0..%d sequences, 0..%d literals; Seq fields over all of uint32 (wf=0) or well-formed for the window with MatchLen <= %d (wf=1); "
+              "two sequences only for the smaller geometry %s" % (NS, NL, MM, P2),
+              "writer": "accepts any k <= len(p) per call, error iff k < len(p); fault budgets %s per Decoder call" % (list(wfs),),
+              "operations": "one Decoder call from an arbitrary state satisfying the buffer invariant (inductive step over the ghost relation accepted ++ Data[R:] = expansion)"}
+    return jobs, bounds
+
+
+DCD_REACH = {"zzH_dcdWriteBlock": ["end", "block-ok"]}
+
+
+def spec_C06(tier):
+    jobs, bounds = dcd_jobs(tier, ["dcdWriteByte", "dcdWrite", "dcdFlush", "dcdWriteBlock"], (0, 1))
+    return {"jobs": jobs, "bounds": bounds, "assumptions": DEC_ASSUME + ["the writer returns (it is a stub); non-termination = more than 48 writer calls, or more than 200 visits of one loop head "
+            "/ 400000 SSA steps inside one Decoder call (legitimate calls within the bounds need < 20 writer calls)"], "outside": DEC_OUTSIDE,
+            "explanation": "termination of every Decoder call for every argument size relative to BufferSize-WindowSize and BufferSize, valid or not, with and without writer faults: "
+                           "a path that exceeds the work bound is reported as non-termination and confirmed natively under a watchdog", "reach": DCD_REACH}
+
+
+def spec_C07(tier):
+    jobs, bounds = dcd_jobs(tier, ["dcdWriteByte", "dcdWrite", "dcdWriteBlock"], (0,), wf_modes=(1,))
+    return {"jobs": jobs, "bounds": bounds, "assumptions": DEC_ASSUME + ["stream well-formedness in the sense of C02 at the current stream offset (assumed; that the parsers emit only such streams is C02)"],
+            "outside": DEC_OUTSIDE + ["parser in the loop (composition C02 => C07)"],
+            "explanation": "a block that is well-formed for window W at the current stream position, written to a Decoder with WindowSize W in an arbitrary state with a working writer, "
+                           "must be accepted (err == nil, everything consumed) and keep the ghost relation; plain Write/WriteByte never refuse",
+            "reach": DCD_REACH}
+
+
+def spec_C18(tier):
+    jobs, bounds = dcd_jobs(tier, ["dcdWriteByte", "dcdWrite", "dcdFlush", "dcdWriteBlock"], (2,), wf_modes=(1,))
+    return {"jobs": jobs, "bounds": bounds, "assumptions": DEC_ASSUME, "outside": DEC_OUTSIDE,
+            "explanation": "writer faults (short writes with error, failing empty writes; up to 2 per Decoder call, any placement): the writer's error is returned, the bytes it accepted "
+                           "are exactly the next bytes of the reference expansion (ghost relation accepted ++ Data[R:] = expansion is inductive), k and l identify exactly what was "
+                           "consumed so a retry of Sequences[k:], Literals[l:] continues the same stream; Flush with nil error leaves nothing pending",
+            "reach": DCD_REACH}
